@@ -86,7 +86,7 @@ def r2_merge(ctx):
         pv = F.variants("de::PayloadEvent")
         acc = {}
         for p in ctx.paths(dt):
-            d = [e for e in p if e[0] == "switch" and e[2][0] == "discr" and e[2][1][0] == "pl" and has_subterm(e[2], lambda s: call_is(s, "next_impl")) and any(isinstance(x, tuple) and x[0] == "d" and x[2] == "Continue" for x in e[2][1][2])]
+            d = [e for e in p if e[0] == "switch" and e[2][0] == "discr" and e[2][1][0] == "pl" and has_subterm(e[2], lambda s: call_is(s, "next_impl")) and any(isinstance(x, tuple) and x[0] == "d" and x[2] in ("Continue", "Ok") for x in e[2][1][2])]
             if not d or not isinstance(d[-1][3], int):
                 continue
             v = pv[d[-1][3]]
@@ -160,7 +160,7 @@ def r5_trimmer_in_sync(ctx):
                     if p[-1][0] == "ret":
                         r = ret_of(p)
                         rv = describe_ret(r, 0)[0]
-                        if rv[:1] == ("Err",) or (r[0] == "call" and name_is(r[2], "from_residual")):
+                        if rv[:1] == ("Err",) or (r[0] == "call" and name_is(r[2], "from_residual")) or is_error_exit(p):
                             continue
                     n += 1
                     tail = p[ks[-1] + 1:]
